@@ -223,8 +223,8 @@ def _dataset(draw, hi):
 def subs(tier: str):
     q = tier == "quick"
     return [
-        Sub("mazes", check, "hypothesis", strategy=lambda: _case(20), examples=60 if q else 4000),
-        Sub("sparse-mazes", check, "hypothesis", strategy=lambda: _sparse_case(20), examples=40 if q else 2000),
+        Sub("mazes", check, "hypothesis", strategy=lambda: _case(20), examples=120 if q else 4000),
+        Sub("sparse-mazes", check, "hypothesis", strategy=lambda: _sparse_case(20), examples=80 if q else 2000),
         Sub("large-grids", check, "hypothesis", strategy=_big_case, examples=2 if q else 20),
-        Sub("datasets", check_dataset, "hypothesis", strategy=lambda: _dataset(20), examples=20 if q else 1000),
+        Sub("datasets", check_dataset, "hypothesis", strategy=lambda: _dataset(20), examples=50 if q else 1000),
     ]
